@@ -11,7 +11,7 @@ from .. import runs_common as rc
 
 ID = "C17"
 LEVEL = "exploration"
-BUDGET = {"quick": 400, "thorough": 8000}
+BUDGET = {"quick": 400, "thorough": 25000}
 SHARDS = {"quick": 8, "thorough": 16}
 RULE = (
     "case = whole run of sampler in {importance, smc (MiniPCN kernel), emcee_smc, minipcn, emcee} x preconditioning option "
